@@ -16,7 +16,7 @@ def gen_name(rng):
     elif k < 0.3: base = rng.choice([b'.xz', b'.lzma', b'.txz', b'.tlz', b'.lz', b'-', b'--help', b'-k', b'.', b'..a'])
     elif k < 0.4: base = bytes(rng.choice([0x80, 0xff, 0xc3, 0xa9, 0x0a, 0x09, 0x27, 0x22, 0x5c, 0x24, 0x60]) for _ in range(rng.randrange(1, 6))) + base
     elif k < 0.45: base = base * 15
-    if base in (b'.', b'..'): base = b'x' + base
+    if base in (b'.', b'..', b'-'): base = b'x' + base   # '-' means standard input
     return base
 
 def run(ctx):
@@ -47,7 +47,7 @@ def run(ctx):
             except OSError:
                 continue
             args = [xz, '-F', fmt] + (['-S', custom] if custom else []) + ['--', name]
-            r = subprocess.run(args, cwd=d, capture_output=True)
+            r = subprocess.run(args, cwd=d, capture_output=True, stdin=subprocess.DEVNULL)
             after = set(os.listdir(d.encode()))
             n_eval += 1
             want = None if m == 'none' else bytes.fromhex(m)
@@ -61,7 +61,7 @@ def run(ctx):
             # and back
             mo, _ = run_lines(orc, ['names d %s %s %s' % (fmt, custom.hex() if custom else '-', want.hex())], shards=1)
             back = None if mo[0] == 'none' else bytes.fromhex(mo[0])
-            r2 = subprocess.run([xz, '-d', '-F', fmt] + (['-S', custom] if custom else []) + ['--', want], cwd=d, capture_output=True)
+            r2 = subprocess.run([xz, '-d', '-F', fmt] + (['-S', custom] if custom else []) + ['--', want], cwd=d, capture_output=True, stdin=subprocess.DEVNULL)
             after2 = set(os.listdir(d.encode()))
             n_eval += 1
             if back is None:
@@ -75,26 +75,26 @@ def run(ctx):
         d = os.path.join(td, 'prot'); os.mkdir(d)
         def w(n, c=b'hello'): open(os.path.join(d, n), 'wb').write(c)
         w('a'); w('a.xz', b'EXISTING')
-        r = subprocess.run([xz, 'a'], cwd=d, capture_output=True); n_eval += 1
+        r = subprocess.run([xz, 'a'], cwd=d, capture_output=True, stdin=subprocess.DEVNULL); n_eval += 1
         if open(os.path.join(d, 'a.xz'), 'rb').read() != b'EXISTING' or not os.path.exists(os.path.join(d, 'a')) or r.returncode != 1:
             viol.append(dict(why='existing target overwritten or source removed without --force (exit %d)' % r.returncode, stderr=r.stderr.decode()[:200]))
-        r = subprocess.run([xz, '-f', 'a'], cwd=d, capture_output=True); n_eval += 1
+        r = subprocess.run([xz, '-f', 'a'], cwd=d, capture_output=True, stdin=subprocess.DEVNULL); n_eval += 1
         if r.returncode != 0 or os.path.exists(os.path.join(d, 'a')) or open(os.path.join(d, 'a.xz'), 'rb').read()[:6] != b'\xfd7zXZ\x00':
             viol.append(dict(why='--force did not replace the target', stderr=r.stderr.decode()[:200]))
-        w('k'); r = subprocess.run([xz, '-k', 'k'], cwd=d, capture_output=True); n_eval += 1
+        w('k'); r = subprocess.run([xz, '-k', 'k'], cwd=d, capture_output=True, stdin=subprocess.DEVNULL); n_eval += 1
         if not os.path.exists(os.path.join(d, 'k')) or not os.path.exists(os.path.join(d, 'k.xz')): viol.append(dict(why='--keep removed the source or wrote no target', stderr=''))
-        w('c'); r = subprocess.run([xz, '-c', 'c'], cwd=d, capture_output=True); n_eval += 1
+        w('c'); r = subprocess.run([xz, '-c', 'c'], cwd=d, capture_output=True, stdin=subprocess.DEVNULL); n_eval += 1
         if not os.path.exists(os.path.join(d, 'c')) or os.path.exists(os.path.join(d, 'c.xz')) or r.stdout[:6] != b'\xfd7zXZ\x00': viol.append(dict(why='--stdout removed the source / created a file', stderr=''))
-        w('t'); os.symlink('t', os.path.join(d, 'sl')); r = subprocess.run([xz, 'sl'], cwd=d, capture_output=True); n_eval += 1
+        w('t'); os.symlink('t', os.path.join(d, 'sl')); r = subprocess.run([xz, 'sl'], cwd=d, capture_output=True, stdin=subprocess.DEVNULL); n_eval += 1
         if os.path.exists(os.path.join(d, 'sl.xz')) or r.returncode != 2: viol.append(dict(why='symbolic link processed without --force/--keep (exit %d)' % r.returncode, stderr=r.stderr.decode()[:200]))
-        w('h1'); os.link(os.path.join(d, 'h1'), os.path.join(d, 'h2')); r = subprocess.run([xz, 'h1'], cwd=d, capture_output=True); n_eval += 1
+        w('h1'); os.link(os.path.join(d, 'h1'), os.path.join(d, 'h2')); r = subprocess.run([xz, 'h1'], cwd=d, capture_output=True, stdin=subprocess.DEVNULL); n_eval += 1
         if os.path.exists(os.path.join(d, 'h1.xz')) or r.returncode != 2: viol.append(dict(why='file with two hard links processed (exit %d)' % r.returncode, stderr=''))
         for bits, nm in ((0o4644, 'suid'), (0o2644, 'sgid'), (0o1644, 'sticky')):
-            w(nm); os.chmod(os.path.join(d, nm), bits); r = subprocess.run([xz, nm], cwd=d, capture_output=True); n_eval += 1
+            w(nm); os.chmod(os.path.join(d, nm), bits); r = subprocess.run([xz, nm], cwd=d, capture_output=True, stdin=subprocess.DEVNULL); n_eval += 1
             if os.path.exists(os.path.join(d, nm + '.xz')) or r.returncode != 2: viol.append(dict(why='%s source processed without --force/--keep (exit %d)' % (nm, r.returncode), stderr=''))
-        os.mkdir(os.path.join(d, 'dir')); r = subprocess.run([xz, 'dir'], cwd=d, capture_output=True); n_eval += 1
+        os.mkdir(os.path.join(d, 'dir')); r = subprocess.run([xz, 'dir'], cwd=d, capture_output=True, stdin=subprocess.DEVNULL); n_eval += 1
         if r.returncode != 2: viol.append(dict(why='directory not skipped with a warning (exit %d)' % r.returncode, stderr=''))
-        os.mkfifo(os.path.join(d, 'fifo')); r = subprocess.run([xz, 'fifo'], cwd=d, capture_output=True, timeout=20); n_eval += 1
+        os.mkfifo(os.path.join(d, 'fifo')); r = subprocess.run([xz, 'fifo'], cwd=d, capture_output=True, stdin=subprocess.DEVNULL, timeout=20); n_eval += 1
         if os.path.exists(os.path.join(d, 'fifo.xz')) or r.returncode != 2: viol.append(dict(why='FIFO source produced a file (exit %d)' % r.returncode, stderr=''))
         # ---------- permission bits and timestamps (as root: owner/group can be set)
         modes = [0o000, 0o400, 0o600, 0o640, 0o644, 0o664, 0o666, 0o755, 0o777, 0o705, 0o070, 0o007, 0o750] + [rng.randrange(0o1000) for _ in range(10 if ctx.quick() else 200)]
@@ -103,7 +103,7 @@ def run(ctx):
         for i, m in enumerate(modes):
             p = os.path.join(dm, 'r%d' % i); open(p, 'wb').write(b'x' * 100); os.chmod(p, m); os.utime(p, ns=(1234567890123456789, 987654321987654321))
             os.chown(p, 12345, 54321)
-            r = subprocess.run([xz, p], capture_output=True); n_eval += 1
+            r = subprocess.run([xz, p], capture_output=True, stdin=subprocess.DEVNULL); n_eval += 1
             st = os.stat(p + '.xz') if os.path.exists(p + '.xz') else None
             if st is None: viol.append(dict(why='mode %o: no target (exit %d)' % (m, r.returncode), stderr=r.stderr.decode()[:200])); continue
             if stat.S_IMODE(st.st_mode) != int(mo[i]): viol.append(dict(why='source mode %o: target mode %o, model %o' % (m, stat.S_IMODE(st.st_mode), int(mo[i])), stderr=''))
@@ -115,7 +115,7 @@ def run(ctx):
             os.setgroups([]); os.setgid(65534); os.setuid(65534)
         for i, m in enumerate(modes):
             p = os.path.join(dm, 'u%d' % i); open(p, 'wb').write(b'x' * 100); os.chown(p, 65534, 4242); os.chmod(p, m | 0o400)
-            r = subprocess.run([xz, p], capture_output=True, preexec_fn=drop); n_eval += 1
+            r = subprocess.run([xz, p], capture_output=True, stdin=subprocess.DEVNULL, preexec_fn=drop); n_eval += 1
             if not os.path.exists(p + '.xz'): viol.append(dict(why='unprivileged run, mode %o: no target (exit %d): %s' % (m, r.returncode, r.stderr.decode()[:100]), stderr='')); continue
             st = os.stat(p + '.xz')
             exp, _ = run_lines(orc, ['destmode %d 0' % (m | 0o400)], shards=1)
@@ -128,7 +128,7 @@ def run(ctx):
         mixes = [(['ok1'], ''), (['already.xz'], '2'), (['missing'], '1'), (['already.xz', 'missing'], '21'), (['missing', 'already.xz'], '12'), (['already.xz', 'ok2', 'missing', 'already.xz'], '212')]
         for files, ev in mixes:
             for nw in (0, 1):
-                r = subprocess.run([xz, '-k'] + (['-Q'] if nw else []) + files, cwd=de, capture_output=True); n_eval += 1
+                r = subprocess.run([xz, '-k'] + (['-Q'] if nw else []) + files, cwd=de, capture_output=True, stdin=subprocess.DEVNULL); n_eval += 1
                 mo2, _ = run_lines(orc, ['exitstatus %d %s' % (nw, ev)], shards=1)
                 if r.returncode != int(mo2[0]): viol.append(dict(why='xz -k %s%s: exit status %d, the status rule gives %s' % ('-Q ' if nw else '', ' '.join(files), r.returncode, mo2[0]), stderr=r.stderr.decode()[:200]))
                 distinct.add(('exit', ev, nw))
